@@ -68,7 +68,8 @@ FDivZero == 6
 FOutOfBounds == 7
 FNonlocalPreempt == 8
 
-StrOf(w) == StrTab[ToNat(w)]
+\* (the zero word is an element of a zero-initialised string array that was never assigned: outside the envelope, read as "")
+StrOf(w) == IF ToNat(w) \in DOMAIN StrTab THEN StrTab[ToNat(w)] ELSE <<>>
 ArrOf(hh, w) == hh.s[ToNat(w)]
 \* is word i a valid index into something of length n ?
 InBounds(i, n) == ~IsNeg(i) /\ SmallNat(i) /\ ToNat(i) < n
